@@ -51,6 +51,11 @@ func VerifC10RoundTrip() {
 	mem := sym.NewMemStore()
 	cfg.objStore = mem
 	ctx := context.Background()
+	if sym.Param("FAULTS", 0) == 1 {
+		// the object store fails the first write attempts after having read the content
+		// (transient fault): the snapshot writer retries, the round trip must be unaffected
+		mem.FailNextWrites(sym.Choice("failed-writes", 3))
+	}
 	if sym.Choice("partial", 2) == 0 {
 		s := cfg.NewFullKV(vNop())
 		es := c10Fill(s.baseStore)
